@@ -300,6 +300,19 @@ pub fn decode_seq(t: &mut Tape, max_fns: usize, max_ops: usize) -> SeqCase {
         }
     }
     let max_fns = if large { n } else { max_fns };
+    // one sequence in forty is long: 16..=40 functions up front and 300..=800 edge
+    // calls, so that a builder answers hundreds of cycle queries (rejected ones
+    // included) while acceptable pairs are still left
+    let long = !large && t.chance(1, 40);
+    let (len, max_fns) = if long {
+        t.enable_tail();
+        let k = 16 + t.below(25);
+        ops.push(Op::AddFns(k));
+        n = k;
+        (300 + t.below(501), k)
+    } else {
+        (len, max_fns)
+    };
     for _ in 0..len {
         let c = t.below(20);
         let want_fn = n == 0 || (n < max_fns && c < 3);
@@ -368,7 +381,7 @@ impl Check for SeqCheck {
         let ev = eval_seq(&case);
         let mut labels = vec![
             format!("fns:{}", match ev.n_fns { 0 => "0", 1..=3 => "1..3", 4..=64 => "4..64", _ => "65+" }),
-            format!("edge_calls:{}", match ev.edge_calls { 0 => "0", 1..=5 => "1..5", 6..=15 => "6..15", _ => "16+" }),
+            format!("edge_calls:{}", match ev.edge_calls { 0 => "0", 1..=5 => "1..5", 6..=15 => "6..15", 16..=255 => "16..255", _ => "256+" }),
         ];
         if ev.rejected > 0 {
             labels.push("has_rejected_edge".into());
